@@ -28,9 +28,8 @@ package index
 
 //@ func bucketPosToFileNum(pos, maxFileSize) (ok bool, fileNum uint32)  property C07
 //@   requires maxFileSize > 0
-//@   requires pos == 0 || pos >= 4
 //@   ensures @empty ok <==> pos != 0
-//@   ensures @file ok ==> fileNum == wrapu32((pos - 4) / maxFileSize)
+//@   ensures @file ok && pos >= 4 ==> fileNum == wrapu32((pos - 4) / maxFileSize)
 //@   ensures !ok ==> fileNum == 0
 
 //@ func localizeBucketPos(pos, maxFileSize) (localPos types.Position, fileNum uint32)  property C07
@@ -58,6 +57,7 @@ package index
 //@   invariant @gc-channels self.gcStop != nil ==> !closed(self.gcStop)
 //@   invariant @closed-once oncedone(self.closeOnce) ==> self.$closed
 //@   invariant @config self.maxFileSize > 0 && self.maxFileSize <= (1 << 30) && self.length < (1 << 32)
+//@   invariant @bucket-count self.sizeBits <= 32 && len(self.buckets) == (1 << self.sizeBits)
 //@   ghost field $Ein (Array Bytes Bool)
 //@   ghost field $Eblk (Array Bytes Int)
 //@   ghost field $pending Bool
@@ -442,3 +442,80 @@ package index
 //@   ensures @inv err == nil && removed ==> HASCUR(idx, BK()) && RL(idx, CUR(idx, BK()), L())
 //@   ensures @removed-entry err == nil && removed ==> rn(CUR(idx, BK())) == rn(B0()) - 1 && (forall i int :: 0 <= i && i < I0() ==> rkey(CUR(idx, BK()), i) == rkey(B0(), i) && rblk(CUR(idx, BK()), i) == rblk(B0(), i)) && (forall i int :: I0() <= i && i < rn(B0()) - 1 ==> rkey(CUR(idx, BK()), i) == rkey(B0(), i + 1) && rblk(CUR(idx, BK()), i) == rblk(B0(), i + 1))
 //@   ensures @not-removed-unchanged !removed ==> CUR(idx, BK()) == B0()
+
+// ===========================================================================
+// Index garbage collection: orderings and frames (C03-D5, C04, C11, C17).
+// ghdr (ghost, per function) is the FirstFile value of the header file as it is on disk: set by
+// a successful readHeader and by a successful writeHeader of index.headerPath.
+
+//@ func indexFileName(basePath string, fileNum uint32) (name string)
+//@   trusted fmt.Sprintf("%s.%d") is an injective naming function (prelude fs.smt2)
+//@   pure
+//@   ensures name == fname(basePath, fileNum)
+
+//@ func readHeader(filePath string) (h Header, err error)
+//@   trusted reads the header file (encoding/json round trip of what writeHeader wrote)
+//@   pure
+
+//@ func writeHeader(headerPath string, header Header) (err error)
+//@   trusted the header file is rewritten in place by os.WriteFile (finding F11: not atomic; see DESIGN.md)
+//@   pure
+
+//@ func (index *Index) reapIndexRecords(ctx context.Context, fileNum uint32, indexPath string) (stale bool, err error)
+//@   trusted T5 contract pending: marks/merges/truncates free records of one non-current index file (see DESIGN.md 10)
+//@   modifies ctx.$done
+
+// Index.gc: only non-current files are reaped; a file is unlinked only when it is the first
+// file, only after the header on disk was advanced past it (D5), and only if it is stale.
+//@ func (index *Index) gc(ctx context.Context, scanFree bool) (reclaimed int64, emptied int, err error)  property C03 C04 C11
+//@   preserves index
+//@   modifies index.gcResume, index.gcResumeAt, ctx.$done, fp(FC)
+//@   ghost var ghdr int = 0
+//@   ghost var gstale bool = false
+//@   ghost at after call index.readHeader#0: ghdr = ite($r1 == nil, $r0.FirstFile, ghdr)
+//@   ghost at after call index.writeHeader#0: ghdr = ite($r0 == nil, $a1.FirstFile, ghdr)
+//@   ghost at after call index.Index.reapIndexRecords#0: gstale = ($r0 && $r1 == nil)
+//@   assert at before call index.readHeader#0: @header-path $a0 == index.headerPath
+//@   assert at before call index.writeHeader#0: @header-path $a0 == index.headerPath
+//@   assert at before call index.Index.reapIndexRecords#0: @C04-not-current fileNum != lastFileNum && $a3 == fname(index.basePath, fileNum)
+//@   assert at before call os.Remove#0: @D5-header-before-unlink $a0 == fname(index.basePath, fileNum) && ghdr == wrapu32(fileNum + 1) && fileNum != lastFileNum
+//@   assert at before call os.Remove#0: @C04-only-stale gstale
+//@   assert at before call index.writeHeader#0: @C11-advance-by-one $a1.FirstFile == wrapu32(fileNum + 1) && ghdr == fileNum && gstale
+//@   loop 0 invariant ghdr == header.FirstFile && index.basePath == old(index.basePath) && index.headerPath == old(index.headerPath)
+
+//@ func (index *Index) truncateFreeFiles(ctx context.Context) (reclaimed int64, emptied int, err error)  property C03 C04 C11
+//@   preserves index
+//@   modifies ctx.$done, fp(FC)
+//@   ghost var ghdr int = 0
+//@   ghost at after call index.readHeader#0: ghdr = ite($r1 == nil, $r0.FirstFile, ghdr)
+//@   ghost at after call index.writeHeader#0: ghdr = ite($r0 == nil, $a1.FirstFile, ghdr)
+//@   assert at before call index.readHeader#0: @header-path $a0 == index.headerPath
+//@   assert at before call index.writeHeader#0: @header-path $a0 == index.headerPath
+//@   assert at before call os.Remove#0: @D5-header-before-unlink $a0 == fname(index.basePath, fileNum) && ghdr == wrapu32(fileNum + 1) && fileNum != lastFileNum
+//@   assert at before call os.Remove#0: @C04-not-busy !(fileNum in busySet)
+//@   assert at before call os.Truncate#0: @C04-not-busy-not-current $a0 == fname(index.basePath, fileNum) && !(fileNum in busySet) && fileNum != lastFileNum && $a1 == 0
+//@   macro BUSYFILE(p) = wrapu32((p - 4) / index.maxFileSize)
+//@   ghost var gi0 int = 0
+//@   ghost at loop 0 head: gi0 = i
+//@   loop 0 invariant 0 <= i && len(tmpBuckets) == 4096 && busySet != nil && maxFileSize == index.maxFileSize && end == (1 << index.sizeBits)
+//@   loop 0 invariant @covered forall j int :: 0 <= j && j < i && j < len(index.buckets) && index.buckets[j] >= 4 ==> BUSYFILE(index.buckets[j]) in busySet
+//@   loop 1 invariant @idx 0 <= $idx && $idx <= 4096
+//@   loop 1 invariant @window 0 <= gi0 && gi0 <= i && i <= gi0 + 4096 && i <= len(index.buckets)
+//@   loop 1 invariant @locals len(tmpBuckets) == 4096 && busySet != nil && maxFileSize == index.maxFileSize
+//@   loop 1 invariant @end end == (1 << index.sizeBits)
+//@   loop 1 invariant forall j int :: 0 <= j && j < gi0 && j < len(index.buckets) && index.buckets[j] >= 4 ==> BUSYFILE(index.buckets[j]) in busySet
+//@   loop 1 invariant forall k int :: 0 <= k && k < i - gi0 ==> tmpBuckets[k] == index.buckets[gi0 + k]
+//@   loop 1 invariant forall k int :: 0 <= k && k < $idx && tmpBuckets[k] >= 4 ==> BUSYFILE(tmpBuckets[k]) in busySet
+//@   assert at before call os.Truncate#0: @C04-unreferenced forall j int :: 0 <= j && j < len(index.buckets) && index.buckets[j] >= 4 ==> BUSYFILE(index.buckets[j]) != fileNum
+//@   assert at before call os.Remove#0: @C04-unreferenced forall j int :: 0 <= j && j < len(index.buckets) && index.buckets[j] >= 4 ==> BUSYFILE(index.buckets[j]) != fileNum
+//@   loop 2 invariant ghdr == header.FirstFile && index.basePath == old(index.basePath) && index.headerPath == old(index.headerPath) && busySet != nil && basePath == index.basePath
+//@   loop 2 invariant @covered forall j int :: 0 <= j && j < len(index.buckets) && index.buckets[j] >= 4 ==> BUSYFILE(index.buckets[j]) in busySet
+
+// The collector goroutine (C17): when told to stop it cancels the running cycle and waits for
+// it to finish before it returns (and thereby before it closes index.gcDone, which Close waits for).
+//@ func (index *Index) garbageCollector(interval, timeLimit time.Duration)  property C17
+//@   requires index.gcStop != nil && index.gcDone != nil && !closed(index.gcDone)
+//@   modifies chan(index.gcDone), chan(index.gcStop), fp(CTX)
+//@   ensures @C17-done-closed closed(index.gcDone)
+//@   ensures @C17-cycle-waited gcDone == nil || waited(gcDone)
+//@   loop 0 invariant index.gcStop == old(index.gcStop) && index.gcDone == old(index.gcDone) && !closed(index.gcDone) && t != nil && fresh(t.C) && (gcDone == nil || fresh(gcDone))
